@@ -52,7 +52,7 @@ def make_case(seed, i):
     pkg = M.gen_package(rng.next(), cfg, targets=targets)
     has_versions = rng.chance(0.25)
     if has_versions:
-        pkg = E.with_versions(pkg, rng.fork("v"), rng.randint(1, 2), partial=rng.chance(0.5))
+        pkg = E.with_versions(pkg, rng.fork("v"), rng.randint(1, 2), partial=rng.chance(0.5), layout=rng.fork("vlayout").choice(["siblings", "archive"]))
     # layout: yardl reads model files in sub-directories of a package directory too (ParseYamlInDir walks the tree),
     # so a share of the packages keep one model file of the main or of a referenced package below a sub-directory
     lr = rng.fork("layout")
